@@ -35,7 +35,13 @@ mod call {
 	// native replay: the repository's real functions under real unwinding
 	use super::*;
 	fn real<R>(f: impl FnOnce() -> R) -> VR<R> {
-		std::panic::catch_unwind(std::panic::AssertUnwindSafe(f)).map_err(|_| if w().faults > 0 { VPanic::Fault } else { VPanic::User })
+		std::panic::catch_unwind(std::panic::AssertUnwindSafe(f)).map_err(|e| {
+			let msg: String = e.downcast_ref::<&str>().map(|s| s.to_string()).or_else(|| e.downcast_ref::<String>().cloned()).unwrap_or_default();
+			if msg.starts_with("U_") || (msg.starts_with('C') && msg.len() > 3 && msg.as_bytes()[3] == b'_') {
+				std::panic::resume_unwind(e);
+			}
+			if w().faults > 0 { VPanic::Fault } else { VPanic::User }
+		})
 	}
 	fn un<R>(r: VR<R>) -> R { match r { Ok(v) => v, Err(_) => panic!("user panic") } }
 	pub fn mutex_scoped_lock<'a>(m: &'a M, key: impl crate::Keyable, f: impl FnOnce(&'a mut u8) -> VR<u8>) -> VR<u8> { real(|| m.scoped_lock(key, |d| un(f(d)))) }
